@@ -357,23 +357,30 @@ def run(ctx: Ctx) -> None:
         "dark-atom padding only with 2-level atoms (3-level padding is C25's subject); expectation on density matrices and entropy on emu-sv are documented refusals",
         "random states / parameters are seeded samples, not a proof",
     ]
-    res = run_tlc("Observables", None, workdir=ctx.work, name="cells", cfg_text=cfg_cells("code"), workers=2, extra=["-continue"], timeout=600)
-    ctx.add_tlc(res)
-    cells = {}
-    for t in printed_tuples(res["out"], "CELL"):
-        _, b, o, kind, norm, can, dark, impl, acc_, cls = t
-        cells[(b, o, kind, norm, can == "canonical", dark == "dark")] = {"impl": impl, "accepts": acc_ == "accepts", "ok": cls == "one"}
-    if len(cells) < 50:
-        raise MachineryError(f"TLC printed only {len(cells)} cells")
-    model_bad = sorted(k for k, v in cells.items() if not (v["ok"] and v["accepts"]))
-    ctx.coverage["model"] = {"cells": len(cells), "violated_invariants": sorted({v[1] for v in res["violated"]}),
-                             "cells_refuted_by_model": len(model_bad), "implementations": sorted({v["impl"] for v in cells.values()})}
-    # the candidate repair of the mechanism must satisfy the requirement (and the mutant must not)
-    for variant, expect_clean in (("sv_normalises", True), ("fill_unnormalised", False)):
-        r2 = run_tlc("Observables", None, workdir=ctx.work, name=f"cells_{variant}", cfg_text=cfg_cells(variant).replace("LogCells = TRUE", "LogCells = FALSE"),
-                     workers=2, extra=["-continue"], timeout=600)
-        if bool(r2["violated"]) == expect_clean:
-            raise MachineryError(f"specification self-test: variant {variant} {'violates' if expect_clean else 'satisfies'} the requirement")
+    def cells_of(variant: str):
+        r = run_tlc("Observables", None, workdir=ctx.work, name=f"cells_{variant}", cfg_text=cfg_cells(variant), workers=2, extra=["-continue"], timeout=600)
+        cs = {}
+        for t in printed_tuples(r["out"], "CELL"):
+            _, b, o, kind, norm, can, dark, impl, acc_, cls = t
+            cs[(b, o, kind, norm, can == "canonical", dark == "dark")] = {"impl": impl, "accepts": acc_ == "accepts", "ok": cls == "one"}
+        if len(cs) < 50:
+            raise MachineryError(f"TLC printed only {len(cs)} cells for {variant}")
+        return r, cs
+
+    # two transcriptions of the emu-sv mechanism: the state is passed as it is ("code", what the tree did when the
+    # specification was written) or normalised first ("sv_normalises", the candidate repair).  The one that matches
+    # the measured behaviour is the mechanism model of THIS tree; TLC decides the requirement for both.
+    models = {}
+    for variant in ("code", "sv_normalises"):
+        r, cs = cells_of(variant)
+        ctx.add_tlc(r)
+        models[variant] = {"res": r, "cells": cs}
+    if not models["code"]["res"]["violated"] or models["sv_normalises"]["res"]["violated"]:
+        raise MachineryError("specification self-test: 'code' must refute ReportedIsDefinition on unnormalised emu-sv states, 'sv_normalises' must satisfy it")
+    r2 = run_tlc("Observables", None, workdir=ctx.work, name="cells_fill_unnormalised", cfg_text=cfg_cells("fill_unnormalised").replace("LogCells = TRUE", "LogCells = FALSE"),
+                 workers=2, extra=["-continue"], timeout=600)
+    if not r2["violated"]:
+        raise MachineryError("specification self-test: mutant fill_unnormalised satisfies the requirement")
     # ---- binding A
     rng = np.random.default_rng([ctx.seed, 13])
     count = ctx.pick(4, 20)
@@ -397,27 +404,49 @@ def run(ctx: Ctx) -> None:
     for v in acc["violations"]:
         ctx.violation(v["key"], v["what"], {"scenario": v["params"], "how": "harness.drivers.C13.mps_scenario / sv_scenario with this seed and iteration"})
         seen_keys.add(v["key"])
-    # cell by cell: model verdict vs real verdict
+    # cell by cell: model verdict vs real verdict, for the transcription that matches this tree
+    def mismatches(cs):
+        out = []
+        for k, m in sorted(cs.items()):
+            rv = real_cells.get(k)
+            if k[1] == "bitstrings" or rv is None:
+                continue
+            if all(x == "ok" for x in rv) != (m["ok"] and m["accepts"]):
+                out.append(k)
+        return out
+
+    mm = {v: mismatches(models[v]["cells"]) for v in models}
+    variant = min(mm, key=lambda v: len(mm[v]))
+    cells = models[variant]["cells"]
+    ctx.coverage["model"] = {"cells": len(cells), "mechanism_variant_matching_this_tree": variant,
+                             "violated_invariants": {v: sorted({x[1] for x in models[v]["res"]["violated"]}) for v in models},
+                             "cells_refuted_by_model": len([k for k, v in cells.items() if not (v["ok"] and v["accepts"])]),
+                             "implementations": sorted({v["impl"] for v in cells.values()})}
+    for k in mm[variant]:
+        ctx.model_drift(f"cell {k}: model ({variant}) and the real backend disagree on whether the reported value is the definition")
     n_cells = 0
     for k, m in sorted(cells.items()):
         if k[1] == "bitstrings":
             continue  # C15's subject
         rv = real_cells.get(k)
         if rv is None:
-            if not (k[0] == "sv" and not k[4]):
-                ctx.notes.append(f"cell {k} not instantiated")
+            ctx.notes.append(f"cell {k} not instantiated")
             continue
         n_cells += 1
-        real_ok = all(x == "ok" for x in rv)
-        ctx.case(("cell",) + k, nontrivial=True, sample={"cell": k, "instances": len(rv), "model_ok": m["ok"], "real_ok": real_ok} if n_cells % 17 == 0 else None)
-        if real_ok != (m["ok"] and m["accepts"]):
-            ctx.model_drift(f"cell {k}: model says {'ok' if m['ok'] else 'scaled value'}, real backend {'agrees with the definition' if real_ok else 'does not'}")
+        ctx.case(("cell",) + k, nontrivial=True, sample={"cell": k, "instances": len(rv), "model_ok": m["ok"], "real_ok": all(x == "ok" for x in rv)} if n_cells % 17 == 0 else None)
     ctx.evaluations += acc["transitions"]
     ctx.traces_validated += acc["transitions"]
     ctx.coverage["cells_instantiated"] = n_cells
     ctx.coverage["scenarios"] = acc["transitions"]
-    ctx.coverage["worst_margin_err_over_budget"] = {k: round(v, 6) for k, v in sorted(acc["margins"].items())}
-    ctx.coverage["checks"] = dict(sorted(acc["checks"].items()))
+    wm, ck = {}, {}
+    for k, v in acc["margins"].items():
+        kk = k.split(":")[1] + ":" + k.split(":")[-1]
+        wm[kk] = max(wm.get(kk, 0.0), v)
+    for k, v in acc["checks"].items():
+        kk = k.split(":")[1] + ":" + k.split(":")[-1]
+        ck[kk] = ck.get(kk, 0) + v
+    ctx.coverage["worst_margin_err_over_budget"] = {k: float(f"{v:.3g}") for k, v in sorted(wm.items())}
+    ctx.coverage["checks"] = dict(sorted(ck.items()))
     ctx.coverage["rule"] = ("one case per table cell (backend, observable, representation, norm class, canonical, dark padding) printed by TLC and instantiated on "
                             f"{count}+ random scenarios through the real backend; a cell is non-trivial when at least one real Results value was compared with its definition")
     ctx.coverage["exhaustive"] = False
